@@ -1261,3 +1261,47 @@ def dispatch_sound(ctx, prop, what):
     for rid_, inst in insts:
         rep.check(rd, inst['ok'], '%s:%s' % (rid_, inst['key']), inst['detail'], inst['loc'])
     return rd
+
+
+def borrowed_rule(ctx, prop, rid_suffix, desc, from_prop, select, floor=1):
+    """A clause of `prop` that another property's rules already decide on the same facts: its instances become obligations
+    of `prop` under rule <prop>-<rid_suffix>.  If the lender cannot be evaluated (an anchor of its rules is gone) that is
+    recorded as not evaluated here - the lender reports it itself."""
+    from vlib.runner import borrow
+    rep = ctx.rep
+    try:
+        insts = borrow(ctx, from_prop, select)
+    except AnalysisError as e:
+        r = rep.rule('%s-%s' % (prop, rid_suffix), desc + ' - not evaluated on this tree, see ' + from_prop, floor=0)
+        rep.not_decided.append('%s presupposition borrowed from %s not evaluated: %s' % (prop, from_prop, str(e)[:160]))
+        return r
+    r = rep.rule('%s-%s' % (prop, rid_suffix), desc, floor=floor)
+    for rid_, inst in insts:
+        rep.check(r, inst['ok'], '%s:%s' % (rid_, inst['key']), inst['detail'], inst['loc'])
+    return r
+
+
+def hand_over_sound(ctx, prop):
+    """every layer hands the next one exactly the payload of the packet it parsed (C19-R2): the transport header whose
+    ports / flags / sequence numbers are mirrored is the request's own"""
+    return borrowed_rule(ctx, prop, 'RH', 'layer hand-over: each layer parses exactly the payload of the packet the layer below parsed (C19-R2, same facts)',
+                         'C19', lambda r_, k_: ':hand-over:' in k_, floor=6)
+
+
+def no_abort_in(ctx, prop, fn_regex, what):
+    """answering presupposes not crashing: the abort sites (C01 inventory) inside the functions that implement this protocol
+    are obligations of the property itself"""
+    return borrowed_rule(ctx, prop, 'RA', 'no abort while %s: every abort site in the functions matching %s is discharged or reviewed (C01 inventory, same facts)' % (what, fn_regex),
+                         'C01', lambda r_, k_: r_ in ('C01-R1', 'C01-R2', 'C01-R3') and re.search(fn_regex, _own_path(k_.split('|')[0].split(':unwrap')[0])) is not None, floor=1)
+
+
+def _own_path(fid):
+    """the path a function lives under: for `<T as Trait>::f` that is T's (the trait may come from another module)"""
+    m = re.match(r'^<(.+?) as [^>]+>::', fid)
+    return m.group(1) + '::' if m else fid
+
+
+def table_never_shrinks(ctx, prop):
+    """control blocks, once created, stay: nothing removes, clears or replaces connection-table entries (C07-R4)"""
+    return borrowed_rule(ctx, prop, 'RT', 'a flow keeps its control block: nothing removes, clears or replaces connection-table entries (C07-R4, same facts)',
+                         'C07', lambda r_, k_: r_ == 'C07-R4', floor=1)
